@@ -19,6 +19,7 @@ import (
 
 	"github.com/mutagen-io/mutagen/pkg/synchronization/core"
 	"github.com/mutagen-io/mutagen/pkg/synchronization/core/ignore"
+	dockerignore "github.com/mutagen-io/mutagen/pkg/synchronization/core/ignore/docker"
 
 	"verif/internal/vr"
 )
@@ -109,9 +110,47 @@ type world struct {
 	clk int64
 	gen int
 	uni []string // the paths edits may touch (nil = c13Universe)
+	// ign selects the ignorer used by every scan of this tree (index into
+	// c13Ignores; 0 = Mutagen syntax without patterns).
+	ign int
+	// kinds, when non-nil, restricts the edit kinds (keeps length-3 histories
+	// of the ignore trees affordable in the quick tier).
+	kinds map[string]bool
+	// maxLen, when non-zero, is the longest edit sequence run on this tree.
+	maxLen int
 }
 
-func (w *world) clone() *world { return &world{w.m.clone(), w.clk, w.gen, w.uni} }
+func (w *world) clone() *world {
+	return &world{w.m.clone(), w.clk, w.gen, w.uni, w.ign, w.kinds, w.maxLen}
+}
+
+// c13Ignores are the ignore configurations. Docker syntax with a negation
+// beneath an excluded directory makes that directory a phantom directory that
+// is still traversed; Mutagen syntax with a negation re-includes one file.
+var c13Ignores = []struct {
+	Syntax   string
+	Patterns []string
+}{
+	{"mutagen", nil},
+	{"docker", []string{"d/e", "!d/e/z"}}, // d tracked, d/e phantom, d/e/z tracked, d/e/j masked
+	{"docker", []string{"d", "!d/e/z"}},   // d and d/e phantom, d/x masked
+	{"mutagen", []string{"z", "!d/e/z", "j"}},
+}
+
+// c13IgnoreUniverse is what edits may touch in the ignore trees.
+var c13IgnoreUniverse = []string{"a", "d/x", "d/e", "d/e/z", "d/e/j"}
+
+func ignorerFor(t testing.TB, cfg int) ignore.Ignorer {
+	c := c13Ignores[cfg]
+	if c.Syntax == "docker" {
+		i, err := dockerignore.NewIgnorer(c.Patterns)
+		if err != nil {
+			t.Fatalf("INFRA: docker ignorer: %v", err)
+		}
+		return i
+	}
+	return newIgnorer(t, c.Patterns)
+}
 
 func (w *world) universe() []string {
 	if w.uni != nil {
@@ -129,6 +168,20 @@ func (w *world) tick() int64       { w.clk++; return w.clk }
 
 // enabled lists, in a fixed order, the edits applicable to the current model.
 func (w *world) enabled() []c13op {
+	all := w.enabledAll()
+	if w.kinds == nil {
+		return all
+	}
+	var out []c13op
+	for _, o := range all {
+		if w.kinds[o.Kind] {
+			out = append(out, o)
+		}
+	}
+	return out
+}
+
+func (w *world) enabledAll() []c13op {
 	var out []c13op
 	m := w.m
 	if m[""] != nil {
@@ -410,7 +463,9 @@ func verifyDisk(root string, m model) error {
 // ---- base trees ----
 
 // c13Bases generates the 3 x 8 base trees plus a root that is a file.
-func c13Bases() []*world {
+func c13Bases() []*world { return c13BasesFor(vr.Thorough()) }
+
+func c13BasesFor(thorough bool) []*world {
 	var out []*world
 	for av := 0; av < 3; av++ {
 		for dv := 0; dv < 8; dv++ {
@@ -510,6 +565,43 @@ func c13Bases() []*world {
 		file("e/d", true)
 		file("e/x", false)
 	})
+	// Ignore trees: d/{x, e/{z, j}} variants under each non-trivial ignore
+	// configuration. With the edit kinds restricted to four they are run up to
+	// length 3 (chains of three accelerated scans; quick: only under the first
+	// Docker configuration, the others up to length 2); thorough adds the same
+	// trees with every edit kind up to length 2.
+	four := map[string]bool{"mkfile": true, "rm": true, "edit": true, "mkdir": true}
+	addIgnoreTrees := func(kinds map[string]bool, maxLen func(cfg int) int) {
+		for cfg := 1; cfg < len(c13Ignores); cfg++ {
+			for shape := 0; shape < 3; shape++ {
+				w := &world{m: model{}, uni: c13IgnoreUniverse, ign: cfg, kinds: kinds, maxLen: maxLen(cfg)}
+				file := func(p string) { w.m[p] = &mnode{Kind: 'f', Data: w.freshData(), Mtime: w.tick()} }
+				dir := func(p string) { w.m[p] = &mnode{Kind: 'd'} }
+				if shape != 1 {
+					file("a")
+				}
+				dir("d")
+				if shape != 2 {
+					file("d/x")
+				}
+				dir("d/e")
+				file("d/e/z")
+				file("d/e/j")
+				out = append(out, w)
+			}
+		}
+	}
+	if thorough {
+		addIgnoreTrees(four, func(int) int { return 3 })
+		addIgnoreTrees(nil, func(int) int { return 2 })
+	} else {
+		addIgnoreTrees(four, func(cfg int) int {
+			if cfg == 1 {
+				return 3
+			}
+			return 2
+		})
+	}
 	return out
 }
 
@@ -680,7 +772,7 @@ func runC13(t testing.TB, bases []*world, c c13case, sup supersets, logf func(st
 		return "", st, err
 	}
 	md := modes{core.SymbolicLinkMode(c.Sym), core.PermissionsMode(c.Perm)}
-	ign := newIgnorer(t, nil)
+	ign := ignorerFor(t, w.ign)
 	cold := func() (*core.Snapshot, *core.Cache, error) {
 		s, ch, _, err := doScan(root, nil, nil, nil, ign, nil, md)
 		return s, ch, err
@@ -801,10 +893,10 @@ func TestC13(t *testing.T) {
 		}
 	}
 	threeModes := []modes{allModes[0], allModes[3], allModes[4]} // portable/portable, posix-raw/manual, ignore/portable
-	modeSets := map[int][]modes{1: allModes, 2: allModes[:1]}
+	modeSets := map[int][]modes{1: allModes, 2: allModes[:1], 3: allModes[:1]}
 	// sups[n] = supersets of the reported paths tried on sequences of length n
 	// (first mode pair of the set only).
-	sups := map[int]supersets{1: {Level: 2, MaxS: 2}, 2: {Level: 1, MaxS: 2}}
+	sups := map[int]supersets{1: {Level: 2, MaxS: 2}, 2: {Level: 1, MaxS: 2}, 3: {Level: 1, MaxS: 1}}
 	maxLen := 2
 	if vr.Thorough() {
 		modeSets = map[int][]modes{1: allModes, 2: threeModes, 3: allModes[:1]}
@@ -828,7 +920,7 @@ func TestC13(t *testing.T) {
 			break
 		}
 	}
-	r.Rule(fmt.Sprintf("%d base trees (a in {absent, file, dir{x}} x d in 8 shapes up to depth 3, incl. a link, a FIFO, executable files; plus a root that is itself a file, edited in place; plus 5 trees in which a name recurs at different levels with different content, e.g. d/{x,d/{x}} and d/{x}+e/{x,d/{x}}, edited over %v) x every sequence of 1..%d enabled edits from {mkfile, mkdir, mklink, rm (recursive), mv (incl. replacing a file or an empty directory), edit (same size, later mtime), grow, chmod, swap (same size and mtime, new inode), touch} over the path universe %v; for every sequence every scan schedule (which edits are followed by a scan; 2^(n-1)) is run as a chain of accelerated core.Scan calls whose baseline/cache/ignore cache are the previous accelerated result and whose recheck set is exactly the paths created/deleted/modified since the previous scan (no ancestors); each accelerated result is compared with a cold core.Scan of the same disk; at the final scan, supersets of the reported paths are tried as recheck sets too (reported ∪ S, not chained): length 1: every S of size <= 2 (thorough: every subset) from the ancestors (incl. the root) of the reported paths and the siblings of both, the full ancestor chain, and each of %d paths naming nothing, for every chain; length 2: S of size <= 2 from the ancestors plus the full chain for the scan-once-at-the-end chain (thorough: as length 1 with |S| <= 2); length 3: single ancestors and the full chain (first mode pair only in each case, bound %d). Mode pairs: length 1 all 6; length 2 portable/portable (quick) or portable/portable, posix-raw/manual, ignore/portable (thorough); length 3 (thorough only, run last, under the time budget) portable/portable. Non-trivial = at least one edit changed what a full scan returns; distinct by (base, edit sequence, modes).",
+	r.Rule(fmt.Sprintf("%d base trees (a in {absent, file, dir{x}} x d in 8 shapes up to depth 3, incl. a link, a FIFO, executable files; plus a root that is itself a file, edited in place; plus 5 trees in which a name recurs at different levels with different content, e.g. d/{x,d/{x}} and d/{x}+e/{x,d/{x}}, edited over %v; plus ignore trees = 3 shapes of d/{x,e/{z,j}} (+a) x 3 ignore configurations (Docker [d/e, !d/e/z], Docker [d, !d/e/z], Mutagen [z, !d/e/z, j]) used by every scan of the tree, edited over [a d/x d/e d/e/z d/e/j] with edit kinds mkfile/rm/edit/mkdir up to length 3 (quick: length 3 under the first Docker configuration only, else 2; thorough: additionally with every edit kind up to length 2)) x every sequence of 1..%d enabled edits from {mkfile, mkdir, mklink, rm (recursive), mv (incl. replacing a file or an empty directory), edit (same size, later mtime), grow, chmod, swap (same size and mtime, new inode), touch} over the path universe %v; for every sequence every scan schedule (which edits are followed by a scan; 2^(n-1)) is run as a chain of accelerated core.Scan calls whose baseline/cache/ignore cache are the previous accelerated result and whose recheck set is exactly the paths created/deleted/modified since the previous scan (no ancestors); each accelerated result is compared with a cold core.Scan of the same disk; at the final scan, supersets of the reported paths are tried as recheck sets too (reported ∪ S, not chained): length 1: every S of size <= 2 (thorough: every subset) from the ancestors (incl. the root) of the reported paths and the siblings of both, the full ancestor chain, and each of %d paths naming nothing, for every chain; length 2: S of size <= 2 from the ancestors plus the full chain for the scan-once-at-the-end chain (thorough: as length 1 with |S| <= 2); length 3: single ancestors and the full chain (first mode pair only in each case, bound %d). Mode pairs: length 1 all 6; length 2 portable/portable (quick) or portable/portable, posix-raw/manual, ignore/portable (thorough); length 3 (thorough only, run last, under the time budget) portable/portable. Non-trivial = at least one edit changed what a full scan returns; distinct by (base, edit sequence, modes).",
 		len(bases), c13NamesakeUniverse, maxLen, c13Universe, len(c13misc), sups[1].MaxS))
 	r.Assume("the harness stamps a distinct, strictly increasing modification time on every file it writes and keeps replaced inodes allocated, so every content change alters size, mtime or identity (the property's precondition) by construction; 'swap' keeps size and mtime and changes only the inode",
 		"reported paths = every created, deleted or modified path incl. all members of a removed or renamed subtree; ancestors and siblings appear only through the enumerated supersets",
@@ -840,15 +932,20 @@ func TestC13(t *testing.T) {
 	// reports whether the time budget cut it short.
 	// modeFrom/modeTo select the slice of modeSets[len] that the pass runs;
 	// budgeted=false exempts the pass from the time budget.
-	pass := func(minLen, maxLen, modeFrom, modeTo int, budgeted bool) bool {
+	// sel picks the base trees of the pass: 'i' ignore trees only, 'n' the
+	// others only, 'a' all.
+	pass := func(minLen, maxLen, modeFrom, modeTo int, budgeted bool, sel byte) bool {
 		var capped atomic.Bool
 		vr.Parallel(len(jobs), func(ji int) {
 			l := r.Local()
 			defer l.Flush()
 			j := jobs[ji]
+			if isIgn := bases[j.base].ign != 0; (sel == 'i' && !isIgn) || (sel == 'n' && isIgn) {
+				return
+			}
 			var rec func(w *world, ops []c13op)
 			rec = func(w *world, ops []c13op) {
-				if len(ops) < maxLen {
+				if len(ops) < maxLen && (w.maxLen == 0 || len(ops) < w.maxLen) {
 					defer func() {
 						for _, o := range w.enabled() {
 							nw := w.clone()
@@ -904,20 +1001,25 @@ func TestC13(t *testing.T) {
 		})
 		return capped.Load()
 	}
-	// Length 1 (with the widest superset enumeration) runs first so that no
-	// budget cut can take it away; then length 2; then length 3.
-	// The length-1 pass under the first mode pair carries the widest superset
-	// enumeration; it is small and is not subject to the time budget.
-	pass(1, 1, 0, 1, false)
-	r.Set("scans_in_unbudgeted_length1_pass", scans.Load())
-	if pass(1, 1, 1, 99, true) {
-		r.NotExhaustive("length 1 under portable/portable (with all supersets) was run completely; the time budget ended the length-1 pass under the other mode pairs")
-	} else if pass(2, 2, 0, 99, true) {
-		r.NotExhaustive("every sequence of length 1 was run; the time budget ended the length-2 pass (shards are (first edit, base) in a fixed order, the tail was not run)")
+	// Order: (1) length 1 under the first mode pair with the widest superset
+	// enumeration, all trees, no budget; (2) the ignore trees (Docker / Mutagen
+	// patterns with negations): length 2 without budget, then length 3 (chains
+	// of three accelerated scans, each fed the previous snapshot, digest cache
+	// and ignore cache); (3) the remaining mode pairs at length 1; (4) length 2
+	// of the other trees; (5, thorough) their length 3.
+	pass(1, 1, 0, 1, false, 'a')
+	pass(2, 2, 0, 1, false, 'i')
+	r.Set("scans_in_unbudgeted_passes", scans.Load())
+	if pass(3, 3, 0, 1, true, 'i') {
+		r.NotExhaustive("length 1 (all trees, portable/portable, all supersets) and length 2 of the ignore trees were run completely; the time budget ended the length-3 pass of the ignore trees")
+	} else if pass(1, 1, 1, 99, true, 'a') {
+		r.NotExhaustive("length 1 under portable/portable (with all supersets) and the ignore trees up to length 3 were run completely; the time budget ended the length-1 pass under the other mode pairs")
+	} else if pass(2, 2, 0, 99, true, 'n') {
+		r.NotExhaustive("every sequence of length 1 and the ignore trees up to length 3 were run; the time budget ended the length-2 pass (shards are (first edit, base) in a fixed order, the tail was not run)")
 	} else if maxLen == 3 {
 		before := seqs.Load()
-		if pass(3, 3, 0, 99, true) {
-			r.NotExhaustive(fmt.Sprintf("every sequence of length <= 2 was run; the time budget ended the length-3 pass after %d of its sequences (shards are (first edit, base) in a fixed order; the tail was not run)", seqs.Load()-before))
+		if pass(3, 3, 0, 99, true, 'n') {
+			r.NotExhaustive(fmt.Sprintf("every sequence of length <= 2 (and <= 3 on the ignore trees) was run; the time budget ended the length-3 pass after %d of its sequences (shards are (first edit, base) in a fixed order; the tail was not run)", seqs.Load()-before))
 		}
 	}
 	r.Set("edit_sequences", seqs.Load())
